@@ -101,6 +101,22 @@ CLAIMED = {
             "Trusted: Lean kernel; hand-written machine model tied by correspondence; setjmp/longjmp and the compiler are modelled "
             "(a throw transfers control to the frame ctx->last points to); the AST-to-C printer in tools/props/c19.py.",
             "DESIGN.md §5 C19"),
+    "C18": ("Translator (selectable field and curve tables extracted from relic_fp_param.c / relic_ep_param.c on every run) + Lean 4 kernel "
+            "evaluation of the consistency predicates on the extracted literals + Pratt certificates checked in Lean (soundness proved with "
+            "Mathlib's Lucas test) + correspondence of the table with the values the running library reports",
+            "Proved in Lean for every field and curve the baseline configuration can select (4 fields, 6 curves: NIST/Brainpool/SM2 P-256, "
+            "secp256k1, BN-P256, SM9-P256): the sparse / family-polynomial form evaluates to the modulus; the modulus and the group order are "
+            "prime (Pratt certificate accepted by a checker proved sound); the generator has canonical coordinates and satisfies the curve "
+            "equation; r*G = O (Jacobian evaluation in the kernel, compared with the affine evaluation on every run); the curve is "
+            "non-singular; h*r lies in the Hasse interval and is the only multiple of r in it; for the BN sets p = p(x), r = r(x), cofactor 1 "
+            "and embedding degree 12. Tie: every identifier 0..119 is offered to ep_param_set; each accepted one must be in the extracted "
+            "table and report the same p, a, b, G, r, h and flags, plus an advertised level consistent with the order size. PARTIAL: the "
+            "255/381-bit configurations, binary fields/curves, endomorphism/GLV constants, twist generators and Frobenius constants are not "
+            "in the extracted table yet.",
+            "Trusted: Lean kernel (decide +kernel on literals); tools/translate_params.py (regex extraction after gcc -E; unknown "
+            "constructs are translation failures); untrusted certificate search (sympy) — only the checked certificate counts; Hasse's "
+            "theorem is a hypothesis of the reading 'h*r is the curve order'.",
+            "DESIGN.md §6 (C18)"),
 }
 
 PENDING_REASON = {
